@@ -1623,6 +1623,7 @@ class FnTr:
                 arms = [(c[1], None, e[2]), (("p_wild",), None, els if els is not None else ("block", [], None))]
                 return self.match_k(c[2], arms, env, kk)
             if self.has_effect(c):
+                self.reject_nodes(c)
                 self.fail("effect inside an `if` condition")
             cv = self.ex(c, env)
             a = self.exk(e[2], env, kk)
@@ -1633,6 +1634,7 @@ class FnTr:
         if t == "assign":
             op, lhs, rhs = e[1], e[2], e[3]
             if self.has_effect(rhs):
+                self.reject_nodes(rhs)
                 self.fail("effect on the right-hand side of an assignment")
             if op != "=":
                 rhs = ("binary", op[:-1], lhs, rhs)
@@ -1644,6 +1646,7 @@ class FnTr:
                 self.dropped.append(f"`.{name}()` on the result of a mutating call (the call itself is kept)")
                 return self.exk(recv, env, k)
             if any(self.has_effect(x) for x in args) or (self.has_effect(recv)):
+                self.reject_nodes(e)
                 self.fail(f"effect inside the arguments/receiver of `.{name}()`")
             if self.is_sibling_mut(e):
                 fi = self.a.fninfo[(self.self_ty, name)]
@@ -1702,6 +1705,7 @@ class FnTr:
                 rv = self.ex(recv, env)
                 return self.assign_to(recv, Val("[]", rv.ty), env, k)
             self.fail(f"mutating method `.{name}()`")
+        self.reject_nodes(e)
         self.fail(f"effect (assignment/return) inside a `{t}` expression")
 
     def cas_loop(self, body, env):
@@ -1748,6 +1752,18 @@ class FnTr:
             return f".cas {self.par(c.lean)} {self.par(n.lean)} {self.par(okv)}"
         return self.stk(pre, None, env, fin)
 
+    def reject_nodes(self, e):
+        """name the construct when a parsed-but-unsupported node hides inside e"""
+        for n in walk(e):
+            if n and n[0] == "cfg":
+                self.fail("`#[cfg(...)]` on a statement")
+            if n and n[0] == "try":
+                self.fail("`?` operator")
+            if n and n[0] == "macro":
+                self.fail(f"macro `{n[1]}!`")
+            if n and n[0] in ("while", "for"):
+                self.fail(f"`{n[0]}` loop (only iterator chains and compare-exchange retry loops are in the subset)")
+
     def outer(self, env, env2):
         """after leaving a block: keep outer names only (their Lean names are stable under assignment)"""
         return {n: env2.get(n, v) if env2.get(n, v)[0] == v[0] else v for n, v in env.items()}
@@ -1768,6 +1784,7 @@ class FnTr:
 
     def match_k(self, scrut, arms, env, k):
         if self.has_effect(scrut):
+            self.reject_nodes(scrut)
             self.fail("effect inside a match scrutinee")
         sv = self.ex(scrut, env)
         return self.arms_k(sv, arms, env, lambda body, env2: self.exk(body, env2, k))
@@ -1964,6 +1981,7 @@ class FnTr:
             return self.par(v.lean)
         if c[0] != "closure":
             self.fail("expected a closure argument")
+        self.reject_nodes(c[2])
         env2 = dict(env)
         ps = []
         for i, p in enumerate(c[1]):
@@ -2163,7 +2181,17 @@ class FnTr:
     def ex_if(self, e, env, want):
         c = e[1]
         if e[3] is None:
-            self.fail("`if` without `else` in value position")
+            # statement-like `if` without effects (only dropped/log statements inside): nothing to keep,
+            # but the condition and the body are still translated so that nothing unsupported hides there
+            if c[0] == "let":
+                self.ex(c[2], env)
+            else:
+                self.ex(c, env)
+            v = self.ex(e[2], env)
+            if v.lean != "()":
+                self.fail("`if` without `else` in value position")
+            self.dropped.append("`if` without `else` whose body has no effect (only dropped statements)")
+            return Val("()", ("tuple", []))
         if c[0] == "let":
             return self.ex_match(("match", c[2], [(c[1], None, e[2]), (("p_wild",), None, e[3])]), env, want)
         cv = self.ex(c, env)
